@@ -466,6 +466,13 @@ func judgeLoad(o *loadObs, x *explore.Exec) (string, string) {
 	if len(o.wrong) > 0 {
 		return "loader-wrong-value", strings.Join(o.wrong, "; ")
 	}
+	// unordered conflicting accesses to multi-word values of the loader / translation store (a local
+	// hoisted out of the per-file callback is shared by all consumer goroutines)
+	for _, rc := range x.Res.Races {
+		if strings.Contains(rc.First, "i18n/") && strings.Contains(rc.Second, "i18n/") {
+			return "loader-race", fmt.Sprintf("%s race: %s <-> %s (unordered by happens-before in this schedule)", rc.Kind, rc.First, rc.Second)
+		}
+	}
 	return "", ""
 }
 
@@ -653,7 +660,7 @@ func run(c *fw.Ctx) {
 	for _, l := range layouts(c.Thorough()) {
 		l := l
 		var o loadObs
-		opt := explore.Options{Bound: l.Bound, Focus: loadFocus, Shard: c.Shard, Shards: c.Shards, Deadline: c.Deadline, MaxSteps: 6000}
+		opt := explore.Options{Bound: l.Bound, Focus: loadFocus, Race: true, Shard: c.Shard, Shards: c.Shards, Deadline: c.Deadline, MaxSteps: 6000}
 		body := loaderBody(l, &o)
 		st, err := explore.Explore(opt, body, func(x *explore.Exec) bool {
 			if kind, detail := judgeLoad(&o, x); kind != "" {
@@ -724,7 +731,7 @@ var _ = bytes.Contains
 
 func init() {
 	fw.Register(&fw.Check{ID: "C20", Level: "exploration",
-		Rule: "all nested maps over keys {a,b,é} with depth<=3 and <=3 (quick) / <=4 (thorough) leaves, plus deep maps (spine of depth 1..12 / 1..20 with 1-3 sibling leaves at the bottom, with and without a side leaf per level) (flatten/rebuild both ways, string variant); all JSON documents of 4 nested-object shapes whose string leaf ranges over every string of <=2 (quick) / <=3 (thorough) symbols from {a, quote, backslash, slash, newline, tab, U+0001, é, U+1F600} in every JSON spelling (incl. surrogate pairs) (raw and escaped), plus number/true/null/array leaves, compared with encoding/json (UseNumber); all flat maps from 8 prefix-free key sets x every value string of <=2/3 symbols from {a, quote, backslash, slash, newline, tab, 0x01, é, '<', U+2028, U+1F600, U+10000, U+FFFF, 0x7f} written compact and formatted (valid for encoding/json, same map, round trip); plus EVERY prefix-free set of <=3/<=4 keys from all 30 paths of depth <=2 over the segments {s, s1, s10, s-, é} (names that are prefixes of one another or sort around the separator); translation loader on 14 directory layouts (1-4 files, 1-40 keys per file; sub-directories as the loaded base in three spellings; escaped values; look-alike file names that must not be loaded) under every schedule with <= bound preemptions. distinct = inputs/schedules",
+		Rule: "all nested maps over keys {a,b,é} with depth<=3 and <=3 (quick) / <=4 (thorough) leaves, plus deep maps (spine of depth 1..12 / 1..20 with 1-3 sibling leaves at the bottom, with and without a side leaf per level) (flatten/rebuild both ways, string variant); all JSON documents of 4 nested-object shapes whose string leaf ranges over every string of <=2 (quick) / <=3 (thorough) symbols from {a, quote, backslash, slash, newline, tab, U+0001, é, U+1F600} in every JSON spelling (incl. surrogate pairs) (raw and escaped), plus number/true/null/array leaves, compared with encoding/json (UseNumber); all flat maps from 8 prefix-free key sets x every value string of <=2/3 symbols from {a, quote, backslash, slash, newline, tab, 0x01, é, '<', U+2028, U+1F600, U+10000, U+FFFF, 0x7f} written compact and formatted (valid for encoding/json, same map, round trip); plus EVERY prefix-free set of <=3/<=4 keys from all 30 paths of depth <=2 over the segments {s, s1, s10, s-, é} (names that are prefixes of one another or sort around the separator); translation loader on 14 directory layouts (1-4 files, 1-40 keys per file; sub-directories as the loaded base in three spellings; escaped values; look-alike file names that must not be loaded) under every schedule with <= bound preemptions, with the race oracle on the loader's and the store's multi-word variables (incl. variables captured by the per-file callback). distinct = inputs/schedules",
 		Run: run, Replay: replay,
 		Assumptions: []string{"encoding/json is the reference JSON decoder", "loader values are %-free (Translate is a format API)", "2-3 preemptions, MaxJob 1-2 for the loader"}})
 }
